@@ -4,7 +4,9 @@ import (
 	"bufio"
 	"bytes"
 	"context"
+	"fmt"
 	"io"
+	"os"
 	"os/exec"
 	"strings"
 
@@ -22,6 +24,22 @@ type vpStages struct {
 	waitErr  error // what the pipeline reports when it is waited for (a git process that failed)
 	funcs    map[string]pipe.StageFunc
 	linewise map[string]pipe.LinewiseStageFunc
+}
+
+// vpGitFailure: what Pipeline.Wait reports for a git process that failed, in the
+// shapes the real library produces: 1 a plain error, 2 a wrapped *exec.ExitError
+// of a process that died silently (killed, or non-zero without a word on
+// stderr), 3 one that said "fatal: ..." on stderr. 0 = git succeeded.
+func vpGitFailure(kind int) error {
+	switch kind {
+	case 1:
+		return io.ErrUnexpectedEOF
+	case 2:
+		return fmt.Errorf("git-rev-list: %w", &exec.ExitError{ProcessState: &os.ProcessState{}})
+	case 3:
+		return fmt.Errorf("git-cat-file: %w", &exec.ExitError{ProcessState: &os.ProcessState{}, Stderr: []byte("fatal: bad object HEAD\n")})
+	}
+	return nil
 }
 
 func vpCaptureStages() *vpStages {
@@ -74,10 +92,9 @@ func VPH_pipelineCheck() {
 	// (reporting a listing that stops in the middle of a line as an error is acceptable; the
 	// complete lines before it must not be what fails)
 	vp_Assert(serr == nil || !atBoundary, "a listing of complete lines is read without error")
-	gitFailed := vp_Choice("git-failed", 2) == 1
-	if gitFailed {
-		st.waitErr = io.ErrUnexpectedEOF
-	}
+	failure := vp_Choice("git-failed", 4)
+	gitFailed := failure != 0
+	st.waitErr = vpGitFailure(failure)
 	var got []BatchHeader
 	for {
 		h, ok, nerr := iter.Next()
@@ -186,10 +203,13 @@ func VPH_pipelineBatch() {
 	default:
 		vp_Assert(serr != nil, "ending inside an object's contents is reported as an error")
 	}
+	failure := vp_Choice("git-failed", 4)
+	st.waitErr = vpGitFailure(failure)
 	var got []ObjectRecord
 	for {
-		o, ok, _ := iter.Next()
+		o, ok, nerr := iter.Next()
 		if !ok {
+			vp_Assert((nerr != nil) == (failure != 0), "the end of the stream carries the pipeline's verdict: a failed git process is an error")
 			break
 		}
 		got = append(got, o)
@@ -219,6 +239,9 @@ func VPH_pipelineRefs() {
 	cut := vp_Choice("cut", len(full)+1)
 	data := full[:cut]
 	complete := strings.Count(data, "\n")
+	// (NewReferenceIter waits for the pipeline in a goroutine of its own: the verdict must be known before)
+	failure := vp_Choice("git-failed", 4)
+	st.waitErr = vpGitFailure(failure)
 	iter, err := repo.NewReferenceIter(ctx)
 	vp_Assert(err == nil && iter != nil, "NewReferenceIter")
 	parse := st.funcs["parse-refs"]
@@ -237,7 +260,7 @@ func VPH_pipelineRefs() {
 	for {
 		r, ok, nerr := iter.Next()
 		if !ok {
-			vp_Assert(nerr == nil, "end of stream")
+			vp_Assert((nerr != nil) == (failure != 0), "the end of the stream carries the pipeline's verdict: a failed git process is an error")
 			break
 		}
 		got = append(got, r)
